@@ -8,7 +8,7 @@
    answer between an edit and the next solve with the extracted check_kkt on to_internal(query view),
    and compares the white-box state (qstatus, cache, basis sizes) with the extracted Api model. *)
 From Coq Require Import String Ascii ZArith.
-From QSX Require Import Store.Spec Store.SpecInv Store.Api Store.ApiInv.
+From QSX Require Import Store.Spec Store.SpecInv Store.Api Store.DelRowsCert Store.ApiInv.
 From QSX Require Import LP.Cert LP.CertSound LP.Unique.
 Local Open Scope Q_scope.
 
@@ -43,19 +43,40 @@ Theorem C05_accessors_fail_after_edit : forall M s o t,
 Proof. exact accessors_fail_after_edit. Qed.
 Print Assumptions C05_accessors_fail_after_edit.
 
-(* the cache is an exact optimality certificate of the LP as it now stands, after every history -
-   PARTIAL: under the oracle hypothesis (an OPTIMAL answer carries a certificate: proved for QSexact_solver
-   in C01, explored for the direct simplex) and, for delete-rows calls, the hypothesis that the repacked
-   cache certifies the reduced LP (ops_ok); the latter fails for the code's guard, see the refutation below *)
-Theorem C05_Inv_cache_partial : forall M l s, Inv_cache M s -> ops_ok M s l -> Inv_cache M (api_run M s l).
-Proof. exact api_run_cache_partial. Qed.
-Print Assumptions C05_Inv_cache_partial.
+(* the cache is an exact optimality certificate of the LP as it now stands (check_kkt on to_internal of the current
+   problem), after every history.  Hypotheses: the start state satisfies the invariants (api_init does), and the
+   oracle hypotheses ops_dims / ops_ok - the answer of a solve has the problem's sizes and an OPTIMAL answer carries a
+   certificate (proved for QSexact_solver in C01, explored for the direct simplex).  No hypothesis about edits:
+   every edit drops the cache, leaves the LP unchanged, or is a delete-rows call, and a delete-rows call keeps the
+   (repacked) cache only when every deleted row has pi = 0 - then the repacked cache certifies the reduced LP
+   (C05_delrows_zero_pi_keeps_certificate below). *)
+Theorem C05_Inv_cache : forall M l s, Inv_dims s -> Inv_cache M s -> ops_dims M s l -> ops_ok M s l ->
+  Inv_dims (api_run M s l) /\ Inv_cache M (api_run M s l).
+Proof. exact api_run_cache. Qed.
+Print Assumptions C05_Inv_cache.
 
-Theorem C05_accessors_between_edit_and_solve_partial : forall M s l x,
-  Inv_cache M s -> ops_ok M s l -> acc_x (api_run M s l) = Some x ->
+(* the lemma behind it, on the reference model: deleting distinct valid rows whose dual multipliers are zero keeps
+   the certificate (x, repacked slack, repacked pi, same value).  The stored-basis condition of the code is not needed. *)
+Theorem C05_delrows_zero_pi_keeps_certificate : forall M p ds x sl pi v,
+  length x = ncol p -> NoDup ds ->
+  Forall (fun i => (i < nrow p)%nat) ds -> Forall (fun i => qnth pi i == 0) ds ->
+  check_kkt (inf_sentinel M) (to_internal M (to_ulp p)) (x ++ sl) pi v = true ->
+  check_kkt (inf_sentinel M) (to_internal M (to_ulp (del_rows_n p ds))) (x ++ restrict sl ds) (restrict pi ds) v = true.
+Proof. exact cert_del_rows_n. Qed.
+Print Assumptions C05_delrows_zero_pi_keeps_certificate.
+
+Theorem C05_accessors_between_edit_and_solve : forall M s l x,
+  Inv_dims s -> Inv_cache M s -> ops_dims M s l -> ops_ok M s l -> acc_x (api_run M s l) = Some x ->
   exists c, cert M (a_p (api_run M s l)) c /\ ca_x c = x.
-Proof. exact accessors_between_edit_and_solve_partial. Qed.
-Print Assumptions C05_accessors_between_edit_and_solve_partial.
+Proof. exact accessors_between_edit_and_solve. Qed.
+Print Assumptions C05_accessors_between_edit_and_solve.
+
+(* x, pi, slack and the value served together are one certificate of the current LP *)
+Theorem C05_solution_between_edit_and_solve : forall M s l c,
+  Inv_dims s -> Inv_cache M s -> ops_dims M s l -> ops_ok M s l -> acc_solution (api_run M s l) = Some c ->
+  cert M (a_p (api_run M s l)) c.
+Proof. exact solution_between_edit_and_solve. Qed.
+Print Assumptions C05_solution_between_edit_and_solve.
 
 (* two certified answers for one LP have the same value: a certified re-solve equals a certified fresh solve *)
 Theorem C05_resolve_eq_fresh : forall M s l r_warm r_fresh,
@@ -73,12 +94,12 @@ Print Assumptions C05_resolve_eq_fresh.
    refutation of cache soundness that replayed on the library (notes/repo_patches/demo/delrows_cache_guard.txt).
    With the guard pi = 0 the same state drops the cache; the theorem below pins that behaviour (a return of the
    old guard breaks it and the Api correspondence).  The general statement - a delete-rows call that keeps the
-   cache keeps a certificate - is still carried as the hypothesis step_ok of C05_Inv_cache_partial. *)
+   cache keeps a certificate - is C05_delrows_zero_pi_keeps_certificate / C05_Inv_cache above. *)
 Definition c05_wit_p : prob := prun 1000 (empty_prob 1000 true) [NewCol (-1) 0 1000 None; AddRow 1 "G" None None [(0%Z, 1)]].
 Definition c05_wit : api :=
   {| a_p := c05_wit_p; a_basis := Some {| ba_c := ["0"%char]; ba_r := ["1"%char] |};
      a_cache := Some {| ca_val := -1; ca_x := [1]; ca_pi := [-1]; ca_rc := [0]; ca_slack := [0] |};
-     a_qstatus := 1; a_factorok := true |}.
+     a_qstatus := 1; a_factorok := true; a_rn := false |}.
 
 Theorem C05_delrows_nonzero_pi_drops_cache :
   Inv_dims c05_wit /\ Inv_cache 1000 c05_wit /\
@@ -100,9 +121,88 @@ Print Assumptions C05_delrows_nonzero_pi_drops_cache.
 (* the hypotheses of the positive theorems are satisfiable: the witness state itself, one solve step *)
 Example C05_example :
   let r := {| an_status := 1; an_basis := {| ba_c := ["0"%char]; ba_r := ["0"%char] |};
-              an_sol := {| ca_val := -1; ca_x := [1]; ca_pi := [-1]; ca_rc := [0]; ca_slack := [0] |} |} in
+              an_sol := {| ca_val := -1; ca_x := [1]; ca_pi := [-1]; ca_rc := [0]; ca_slack := [0] |}; an_rn := false |} in
   ops_dims 1000 (api_init c05_wit_p) [ASolve false r] /\ ops_ok 1000 (api_init c05_wit_p) [ASolve false r] /\
   acc_x (api_run 1000 (api_init c05_wit_p) [ASolve false r]) = Some [1].
 Proof.
   vm_compute. repeat split; try reflexivity; intros; reflexivity.
 Qed.
+
+(* a non-trivial delete-rows step that keeps the cache:  max x1 + x2  s.t.  x1 + x2 <= 4 (tight, pi = 1),  x1 <= 10 (slack 7,
+   pi = 0),  x1 - x2 <= 2 (tight, pi = 0: degenerate), 0 <= x <= 1000; solved (x = (3,1), value 4), then rows 1 and 2 are
+   deleted in one call.  The model keeps the cache repacked to one row; by C05_Inv_cache it certifies the reduced LP;
+   the accessor still serves x = (3,1). *)
+Definition c05_keep_p : prob :=
+  prun 1000 (empty_prob 1000 true)
+    [NewCol 1 0 1000 None; NewCol 1 0 1000 None;
+     AddRow 4 "L" None None [(0%Z, 1); (1%Z, 1)]; AddRow 10 "L" None None [(0%Z, 1)]; AddRow 2 "L" None None [(0%Z, 1); (1%Z, -1)]].
+Definition c05_keep_ans : oans :=
+  {| an_status := 1; an_basis := {| ba_c := ["1"; "1"]%char; ba_r := ["0"; "1"; "1"]%char |};
+     an_sol := {| ca_val := 4; ca_x := [3; 1]; ca_pi := [1; 0; 0]; ca_rc := [0; 0]; ca_slack := [0; 7; 0] |}; an_rn := false |}.
+Definition c05_keep_ops : list aop := [ASolve false c05_keep_ans; AEdit (DelRows [2%Z; 1%Z])].
+
+Example C05_example_delrows_keeps_cache :
+  ops_dims 1000 (api_init c05_keep_p) c05_keep_ops /\ ops_ok 1000 (api_init c05_keep_p) c05_keep_ops /\
+  nrow (a_p (api_run 1000 (api_init c05_keep_p) c05_keep_ops)) = 1%nat /\
+  a_cache (api_run 1000 (api_init c05_keep_p) c05_keep_ops) =
+    Some {| ca_val := 4; ca_x := [3; 1]; ca_pi := [1]; ca_rc := [0; 0]; ca_slack := [0] |} /\
+  Inv_cache 1000 (api_run 1000 (api_init c05_keep_p) c05_keep_ops).
+Proof.
+  assert (D : ops_dims 1000 (api_init c05_keep_p) c05_keep_ops) by (vm_compute; repeat split; reflexivity).
+  assert (O : ops_ok 1000 (api_init c05_keep_p) c05_keep_ops) by (vm_compute; repeat split; intros; reflexivity).
+  split; [exact D|]. split; [exact O|]. split; [vm_compute; reflexivity|]. split; [vm_compute; reflexivity|].
+  apply (api_run_cache 1000 c05_keep_ops (api_init c05_keep_p)); try assumption.
+  - apply Inv_dims_init.
+  - intros c H. discriminate H.
+Qed.
+
+(* ===== Inv_factor (DESIGN 5/C05): the flag factorok and the basis matrix.  The LU factors are not modelled; the ghost value
+   `factored` (Store.ApiFactor.grun) remembers the basis matrix - entry lists of the basic structural columns, the basic
+   logicals with the senses of their rows, the number of rows - that the last factorization was computed from: at a solve
+   that really runs, and when ILLlib_addrows refactors the extended basis.  Tie: the Api correspondence of checks/C05.py
+   compares factorok (and whether the stored basis carries row norms, a_rn) with the library after every op. ===== *)
+From QSX Require Import Store.Matrix Store.ApiFactor.
+
+(* an edit other than adding rows never sets the flag; if it leaves the flag set it leaves the basis matrix unchanged -
+   i.e. every edit that changes a basic column, the sense of a row, or the dimension resets factorok *)
+Theorem C05_edit_keeps_factor : forall M s o t b,
+  Inv_dims s -> a_basis s = Some b -> snd (api_edit M s o) = ROk t -> is_addrows o = false ->
+  a_factorok (fst (api_edit M s o)) = true ->
+  a_factorok s = true /\ exists b', a_basis (fst (api_edit M s o)) = Some b' /\ bmatrix (a_p (fst (api_edit M s o))) b' = bmatrix (a_p s) b.
+Proof. exact edit_keeps_factor. Qed.
+Print Assumptions C05_edit_keeps_factor.
+
+(* the calls that always clear the flag *)
+Theorem C05_matrix_edits_reset_factor : forall M s o t,
+  snd (api_edit M s o) = ROk t ->
+  match o with
+  | DelRows _ | DelCols _ | ChgCoef _ _ _ | ChgRange _ _ | ChgSenses _ => True
+  | _ => False
+  end -> a_factorok (fst (api_edit M s o)) = false.
+Proof. exact matrix_edits_reset_factor. Qed.
+Print Assumptions C05_matrix_edits_reset_factor.
+
+(* QSnew_row / QSadd_row(s): as ILLlib_addrows leaves the flag - set exactly when a stored basis with row norms existed and the
+   flag was clear (the extended basis is refactored to compute the norms of the new rows) *)
+Theorem C05_addrows_factor : forall M s o t,
+  snd (api_edit M s o) = ROk t -> is_addrows o = true -> a_factorok (fst (api_edit M s o)) = addrows_factor s.
+Proof. exact addrows_factor_spec. Qed.
+Print Assumptions C05_addrows_factor.
+
+(* Inv_factor for all histories: whenever factorok is set, a stored basis exists and the ghost `factored` is the basis matrix
+   of the LP as it now stands *)
+Theorem C05_Inv_factor : forall M l sg, Inv_dims (fst sg) -> ops_dims M (fst sg) l -> Inv_factor sg -> Inv_factor (grun M sg l).
+Proof. exact grun_factor. Qed.
+Print Assumptions C05_Inv_factor.
+
+Theorem C05_Inv_factor_init : forall p, Inv_factor (api_init p, None).
+Proof. exact Inv_factor_init. Qed.
+Print Assumptions C05_Inv_factor_init.
+
+(* an add-row call that ends with the flag set: stored basis with row norms, flag clear before (e.g. after QSload_basis_and_row_norms) *)
+Example C05_example_addrow_refactors :
+  let s := {| a_p := c05_keep_p; a_basis := Some {| ba_c := ["1"; "1"]%char; ba_r := ["0"; "1"; "1"]%char |};
+              a_cache := None; a_qstatus := 100; a_factorok := false; a_rn := true |} in
+  let s' := fst (api_edit 1000 s (AddRow 9 "L" None None [(0%Z, 1)])) in
+  a_factorok s' = true /\ Inv_factor (gstep 1000 (s, None) (AEdit (AddRow 9 "L" None None [(0%Z, 1)]))).
+Proof. split; [vm_compute; reflexivity|]. intros _. vm_compute. eexists. split; reflexivity. Qed.
